@@ -1,7 +1,7 @@
 (* C18 - file access never escapes the project root. Statements only; proofs by `exact`. *)
 From Coq Require Import String List PArith.
 Import ListNotations.
-Require Import Verif.Chroot.Path Verif.Chroot.PathProps Verif.Chroot.Confine Verif.Gen.ChrootOps.
+Require Import Verif.Chroot.Path Verif.Chroot.PathProps Verif.Chroot.Import Verif.Chroot.Confine Verif.Gen.ChrootOps.
 
 (* openAllowed = "the cleaned root is a prefix", for every root and path *)
 Theorem C18_allowed_is_prefix : forall root p, allowed root p = true <-> exists s, p = clean_abs root ++ s.
@@ -35,3 +35,21 @@ Print Assumptions C18_canonical_spelling.
 Theorem C18_ops_cover : map (fun o => (op_name o, length (op_args o))) ops = expected_ops.
 Proof. exact ops_cover. Qed.
 Print Assumptions C18_ops_cover.
+
+(* import statements (relative or rooted spelling, from any directory) and the module argument *)
+Theorem C18_import_confined : forall root base rooted sp p,
+  import_open ops root base rooted sp = Some p -> exists s, p = clean_abs root ++ s.
+Proof. exact import_confined. Qed.
+Print Assumptions C18_import_confined.
+
+Theorem C18_import_inside_served : forall root base rooted sp s,
+  join root (import_name base rooted sp) = clean_abs root ++ s ->
+  import_open ops root base rooted sp = Some (clean_abs root ++ s).
+Proof. exact import_inside_served. Qed.
+Print Assumptions C18_import_inside_served.
+
+Theorem C18_import_same_file : forall root base rooted sp base' rooted' sp',
+  join root (import_name base rooted sp) = join root (import_name base' rooted' sp') ->
+  import_open ops root base rooted sp = import_open ops root base' rooted' sp'.
+Proof. exact import_same_file. Qed.
+Print Assumptions C18_import_same_file.
